@@ -10,7 +10,8 @@ ID = "C02"
 TECHNIQUE = "Hypothesis-generated ballot collections vs. an independent integer tally (reference model); tally-margin identity"
 RULE = (
     "case = (contest kind plurality/approval/super-majority, candidates, winner set or winner + share p/q, 0..40 ballots "
-    "with arbitrary truthy/falsy marks, blank ballots, ballots lacking the contest). Oracle: own integer tally. "
+    "with arbitrary truthy/falsy marks, blank ballots, ballots lacking the contest; in a third of the cases the cards also carry a "
+    "second tallied contest with valid votes / overvotes). Oracle: own integer tally. "
     "Non-trivial = >=2 distinct ballot shapes and at least one of {tie between a winner and a loser, exact threshold, "
     "overvote, ballot lacking the contest, k>=2}. distinct = canonical JSON."
 )
@@ -49,7 +50,13 @@ def strategy(shard):
         # a few popular shapes repeated make ties and exact thresholds likely
         pool = draw(st.lists(sa.ballot(cands, write_in=True), min_size=1, max_size=6))
         ballots = [draw(st.sampled_from(pool)) if draw(st.integers(0, 3)) else draw(sa.ballot(cands, write_in=True)) for _ in range(n)]
-        return {"kind": kind, "cands": cands, "winners": winners, "f": f, "ballots": ballots}
+        # the cards may carry a second tallied contest (listed before or after this one): what a card shows there
+        # - nothing, a valid vote, an overvote - is no business of this contest's tally
+        aux = None
+        if draw(st.integers(0, 2)) == 0:
+            mark = st.sampled_from([None, None, {"X": 1}, {"Y": True}, {"X": 1, "Y": 1}, {"X": 1, "Y": 1, "Z": 1}, {}])
+            aux = {"first": draw(st.booleans()), "n_winners": draw(st.sampled_from([1, 1, 2])), "ballots": [draw(mark) for _ in range(n)]}
+        return {"kind": kind, "cands": cands, "winners": winners, "f": f, "ballots": ballots, "aux": aux}
 
     return case()
 
@@ -66,7 +73,15 @@ def build(case, use_style):
          "use_style": use_style, "test_kwargs": {}}
     if kind == "super":
         d["share_to_win"] = float(Fraction(case["f"]))
-    contests = Contest.from_dict_of_dicts({"con": d})
+    aux = case.get("aux")
+    if aux:
+        da = {"name": "aux", "risk_limit": 0.05, "cards": max(1, len(case["ballots"])), "choice_function": "PLURALITY",
+              "n_winners": aux["n_winners"], "candidates": ["X", "Y", "Z"], "winner": ["X", "Y"][: aux["n_winners"]],
+              "audit_type": Audit.AUDIT_TYPE.POLLING, "test": NonnegMean.alpha_mart, "estim": NonnegMean.shrink_trunc,
+              "use_style": use_style, "test_kwargs": {}}
+        contests = Contest.from_dict_of_dicts({"aux": da, "con": d} if aux["first"] else {"con": d, "aux": da})
+    else:
+        contests = Contest.from_dict_of_dicts({"con": d})
     con = contests["con"]
     losers = [c for c in case["cands"] if c not in case["winners"]]
     if kind == "approval":
@@ -88,6 +103,8 @@ def build(case, use_style):
     cvrs = []
     for i, b in enumerate(case["ballots"]):
         votes = {} if b is None else {"con": dict(b)}
+        if aux and aux["ballots"][i] is not None:
+            votes = {"aux": dict(aux["ballots"][i]), **votes} if i % 2 else {**votes, "aux": dict(aux["ballots"][i])}
         cvrs.append(CVR(id=f"c{i}", votes=votes))
     return contests, con, cvrs, losers
 
@@ -109,6 +126,8 @@ def evaluate(case, out):
         feats.add("overvote")
     if len(winners) >= 2:
         feats.add("k>=2")
+    if case.get("aux"):
+        out.cls("second-tallied-contest-on-the-cards")
     losers = [c for c in cands if c not in winners]
 
     for use_style in (True, False):
